@@ -207,6 +207,40 @@ class Driver:
         return ['<no answer>' if r is None else r for r in res]
 
 
+class CaseTimeout(Exception):
+    pass
+
+
+WD = {'limit': 0, 'timeouts': 0}
+
+
+class time_limit:
+    """per-call limit for implementation calls (main thread only): the call is interrupted by CaseTimeout, which the callers report
+    as a non-terminating case with the input as replay; afterwards the check-wide watchdog is re-armed"""
+    def __init__(self, sec=20):
+        self.sec = sec
+
+    def __enter__(self):
+        import signal, threading
+        self.on = threading.current_thread() is threading.main_thread()
+        if self.on:
+            def handler(sig, frm):
+                WD['timeouts'] += 1
+                raise CaseTimeout('no result after %d s' % self.sec)
+            self.old = signal.signal(signal.SIGALRM, handler)
+            signal.setitimer(signal.ITIMER_REAL, self.sec)
+        return self
+
+    def __exit__(self, *a):
+        import signal
+        if self.on:
+            signal.setitimer(signal.ITIMER_REAL, 0)
+            signal.signal(signal.SIGALRM, self.old)
+            if WD['limit']:
+                signal.setitimer(signal.ITIMER_REAL, WD['limit'])
+        return False
+
+
 class Ctx:
     def __init__(self, pid, tier, seed, level='proof'):
         self.pid, self.tier, self.seed, self.level = pid, tier, seed, level
@@ -240,6 +274,22 @@ class Ctx:
     def count(self, stream, n=1):
         self.streams[stream] = self.streams.get(stream, 0) + n
         self.evaluations += n
+        self.progress()
+
+    def progress(self):
+        """watchdog: every counted case re-arms a timer; an implementation call that does not come back within the limit is interrupted by
+        CaseTimeout in the main thread, which the per-case handlers turn into a violation with the input as replay (termination is part of C02 / C09 / ...)"""
+        import signal, threading
+        if threading.current_thread() is not threading.main_thread():
+            return
+        if not getattr(self, '_wd', False):
+            def handler(sig, frm):
+                raise CaseTimeout('no result for %d s' % self.wd_limit)
+            signal.signal(signal.SIGALRM, handler)
+            self._wd = True
+            self.wd_limit = 240 if self.tier == 'quick' else 900
+            WD['limit'] = self.wd_limit
+        signal.setitimer(signal.ITIMER_REAL, self.wd_limit)
 
     def nontrivial(self, key):
         self.distinct.add(hashlib.sha1(repr(key).encode('utf-8', 'surrogatepass')).hexdigest()[:16])
@@ -270,6 +320,8 @@ class Ctx:
         return True
 
     def finish(self):
+        import signal
+        signal.setitimer(signal.ITIMER_REAL, 0)
         wall = time.time() - self.t0
         nob = len(self.obligations)
         ndis = sum(1 for o in self.obligations if o[1])
